@@ -413,6 +413,25 @@ theorem C14_cstatus_exclusive {n : Nat} {cs : CStatus} {fl : List Ent} (h : Reac
   · exact apart_of_not_overlap (reg_proper (hi.shape a ha) ha0 hra) (reg_proper (hi.shape b hb) hb0 hrb)
       (h1 l ra hra rb hrb)
 
+/-- Key `k` (an internal key) lies in the closed interval of `r`, by `y.CompareKeys`. -/
+def Within (r : KeyRange) (k : Bytes) : Prop := compareKeys k r.left ≠ .lt ∧ compareKeys r.right k ≠ .lt
+
+theorem apart_no_common_key {ra rb : KeyRange} (h : Apart ra rb) (k : Bytes) : ¬(Within ra k ∧ Within rb k) := by
+  rintro ⟨⟨a1, a2⟩, ⟨b1, b2⟩⟩
+  rcases h with h | h
+  · exact b1 (Badger.Tbl.compareKeys_lt_of_not_lt_of_lt k ra.right rb.left a2 h)
+  · exact a1 (Badger.Tbl.compareKeys_lt_of_not_lt_of_lt k rb.right ra.left b2 h)
+
+/-- Key-level reading of the mutual exclusion: no internal key lies inside the registered ranges of two
+different `compareAndAdd`-admitted compactions on one level — so tables whose keys lie inside the
+ranges registered for them (what `getKeyRange` over `cd.top` / `cd.bot` guarantees) are touched by at
+most one running compaction. -/
+theorem C14_cstatus_no_common_key {n : Nat} {cs : CStatus} {fl : List Ent} (h : Reach n cs fl) {a b : Ent}
+    (ha : a ∈ fl) (hb : b ∈ fl) (hne : a ≠ b) (ha0 : a.l0 = false) (hb0 : b.l0 = false)
+    {l : Nat} {ra rb : KeyRange} (hra : ra ∈ regAt l a) (hrb : rb ∈ regAt l b) (k : Bytes) :
+    ¬(Within ra k ∧ Within rb k) :=
+  apart_no_common_key (C14_cstatus_exclusive h ha hb hne ha0 hb0 hra hrb) k
+
 /-- Two different compactions in flight never share a table — for an L0→L0 compaction this is
 established by the `cs.tables` filter of `fillTablesL0ToL0`, for the others it is the caller's
 hypothesis carried along. -/
